@@ -1312,7 +1312,10 @@ func (w *World) mutate(s *Step) {
 		cfg := n.Cfg
 		cfg.ACS = append([]ACSCfg(nil), cfg.ACS...)
 		cfg.SLO = append([]SLOCfg(nil), cfg.SLO...)
-		switch mod(s.B, 7) {
+		switch mod(s.B, 8) {
+		case 7:
+			// the SP withdraws all its consumer endpoints (an attribute-requester-only registration)
+			cfg.ACS = nil
 		case 5:
 			// the SP moves to bindings this IdP cannot serve
 			for i := range cfg.ACS {
